@@ -5,6 +5,7 @@ import jobs as J
 PID = "C16"
 PROPS = "props/C16.v"
 GOFILES = ["all.go"]
+GOTAB = ["qr.go"]   # C16_qr_producer_always_finishes rests on the QR capacity tables
 
 
 def run_gosync():
@@ -55,6 +56,10 @@ def main(tier, seed):
         broken.append(("grep-gate", "; ".join(bad[:5])))
     try:
         rep.cov["translator"] = run_gosync()
+    except BuildError as e:
+        broken.append(("translator", e.what + ": " + first_error(e.log)))
+    try:
+        rep.cov["tables"] = run_gotab(sys.modules[__name__])
     except BuildError as e:
         broken.append(("translator", e.what + ": " + first_error(e.log)))
     ok, log = coq_build([PROPS[:-2] + ".vo"])
